@@ -1557,6 +1557,41 @@ func (x *lkExtractor) containerReturns() (shared []string, dbsExpr string) {
 	return shared, dbsExpr
 }
 
+// initCleanupReleases: DB.init's failure-cleanup defer (the one that closes db.db) rolls back the long-running
+// read transaction (db.releaseReadLock()) before it drops the handles. sql.DB.Close only closes idle
+// connections: without the rollback the connection owned by that transaction — and SQLite's read lock — leaks.
+func (x *lkExtractor) initCleanupReleases() (bool, error) {
+	fd, ok := x.funcs["DB.init"]
+	if !ok {
+		return false, fmt.Errorf("DB.init not found")
+	}
+	found, ok2 := false, false
+	ast.Inspect(fd.Body, func(n ast.Node) bool {
+		ds, ok := n.(*ast.DeferStmt)
+		if !ok {
+			return true
+		}
+		lit, ok := ds.Call.Fun.(*ast.FuncLit)
+		if !ok || !strings.Contains(x.src(lit.Body), "db.db.Close()") {
+			return true
+		}
+		found = true
+		body := x.src(lit.Body)
+		rel := strings.Index(body, "db.releaseReadLock()")
+		cls := strings.Index(body, "db.db.Close()")
+		drop := strings.Index(body, "db.rtx")
+		if d2 := strings.Index(body, "db.db, db.f"); d2 >= 0 && (drop < 0 || d2 < drop) {
+			drop = d2
+		}
+		ok2 = rel >= 0 && rel < cls && (drop < 0 || rel < drop)
+		return false
+	})
+	if !found {
+		return false, fmt.Errorf("DB.init: failure-cleanup defer (closing db.db) not found")
+	}
+	return ok2, nil
+}
+
 func init() {
 	facts["Locks"] = func(repo string) (string, error) {
 		x, err := newLkExtractor(repo)
@@ -1685,6 +1720,11 @@ func init() {
 			q[i] = fmt.Sprintf("%q", s)
 		}
 		fmt.Fprintf(&sb, "/-- store.go: RegisterDB, statement shape -/\ndef registerShape : List String := [%s]\n\n", strings.Join(q, ", "))
+		relOK, err := x.initCleanupReleases()
+		if err != nil {
+			return "", err
+		}
+		fmt.Fprintf(&sb, "/-- db.go: DB.init's failure cleanup rolls back the read transaction (releaseReadLock) before closing/dropping the handles -/\ndef initCleanupReleasesReadLock : Bool := %v\n\n", relOK)
 		shared, dbsExpr := x.containerReturns()
 		if dbsExpr == "" {
 			return "", fmt.Errorf("Store.DBs: return expression not found")
